@@ -89,6 +89,10 @@ func runC01(c *core.Ctx) {
 		}
 		ft := d.Features(s)
 		cfgs := configsFor(s, ft, true) // reflection with registered types also serves abstract dispatch
+		if ft.UnionField || ft.InterfaceField || ft.AbstractCond || ft.ConcreteUnderInterface || ft.ConcreteUnderUnion {
+			// and so does a cold root that binds Go types by name as it meets them (each request gets a fresh root)
+			cfgs = append(cfgs, namedCfg{"FS/byname", world.Config{Strat: world.FS, Bind: world.BindByName, Schema: s}})
+		}
 		for gi, g0 := range graphs {
 			for _, op := range world.OpNames(d) {
 				for _, vars := range world.VarMaps(d) {
